@@ -572,6 +572,8 @@ class Interp:
         if isinstance(v, VObj):
             if attr in v.fields:
                 return v.fields[attr]
+            if v.tag in ('recorder', 'symlist', 'symdict', 'symset'):
+                return VFunc('builtin', name=f'method:{attr}', obj=None, self_=v)
             return self.class_attr(v, v.pycls, attr)
         if isinstance(v, VKind):
             if attr == '__name__':
